@@ -663,6 +663,16 @@ Theorem within_mtu_plain b m :
   Forall (fun o => Z.of_nat (length o) <= Z.of_N m) (send_request no_sec b (Some m)).
 Proof. intros Ha Ho. apply (within_mtu_sec no_sec no_sec_frag b m Ha Ho). Qed.
 
+(** every hand-off of every send of a history is within the MTU in force at that send *)
+Theorem history_within_mtu b (ms : list N) :
+  frag_allowed b -> one_payload b ->
+  Forall (fun p : N * list bytes => Forall (fun o => Z.of_nat (length o) <= Z.of_N (fst p)) (snd p))
+         (combine ms (send_history no_sec b (map Some ms))).
+Proof.
+  intros Ha Ho. unfold send_history. induction ms as [|m ms IH]; [constructor|].
+  cbn [map combine]. constructor; [|exact IH]. cbn [fst snd]. apply within_mtu_plain; assumption.
+Qed.
+
 (** * 8. A security step that adds a block to whatever passes: the refutation witness *)
 
 Lemma fold_max_ge l : forall a, (a <= fold_left (fun acc k => N.max acc (bnum k)) l a)%N.
